@@ -442,12 +442,13 @@ fn run_case(c: &Case, msgs: &[Option<Msg>], seed: u64, st: &mut Stats) {
 }
 
 #[allow(clippy::too_many_arguments)]
-fn run_fail_case(mi: usize, async_source: bool, k: usize, kind: ErrorKind, async_consumer: bool, tail: usize, msgs: &[Option<Msg>], seed: u64, st: &mut Stats) {
+fn run_fail_case(mi: usize, async_source: bool, k: usize, kind: ErrorKind, async_consumer: bool, tail: usize, transient: bool, msgs: &[Option<Msg>], seed: u64, st: &mut Stats) {
     st.evaluations += 1;
     st.traces += 1;
     let pay = Arc::new(payload_bytes(k + 10, seed));
     let mon = Monitor::new();
-    let src = ScriptSource::new(pay.clone(), vec![Step::Chunk(k), Step::Error(kind)], mon.clone());
+    // sticky failure, or a TRANSIENT one (returned once; a consumer that reads on must get the whole stream)
+    let src = ScriptSource::new(pay.clone(), vec![Step::Chunk(k), if transient { Step::ErrorOnce(kind) } else { Step::Error(kind) }], mon.clone());
     let payload = if async_source { IppPayload::new_async(src) } else { IppPayload::new(src) };
     let (head, rd_sync, rd_async): (Vec<u8>, Option<Box<dyn Read>>, Option<Pin<Box<dyn AsyncRead>>>) = match &msgs[mi] {
         Some(m) => {
@@ -476,12 +477,18 @@ fn run_fail_case(mi: usize, async_source: bool, k: usize, kind: ErrorKind, async
         match std::panic::catch_unwind(std::panic::AssertUnwindSafe(move || {
             let mut out = vec![];
             let mut buf = vec![0u8; tail];
+            let mut errors = 0;
             for _ in 0..limit {
                 match rd.read(&mut buf) {
                     Ok(0) => return Ok((out, None)),
                     Ok(n) => out.extend_from_slice(&buf[..n]),
                     Err(e) if e.kind() == ErrorKind::Interrupted => continue,
-                    Err(e) => return Ok((out, Some(e.kind()))),
+                    Err(e) => {
+                        errors += 1;
+                        if !transient || errors > 3 {
+                            return Ok((out, Some(e.kind())));
+                        }
+                    }
                 }
             }
             Err("neither end-of-stream nor an error".to_string())
@@ -494,11 +501,17 @@ fn run_fail_case(mi: usize, async_source: bool, k: usize, kind: ErrorKind, async
         let fut = async move {
             let mut out = vec![];
             let mut buf = vec![0u8; tail];
+            let mut errors = 0;
             for _ in 0..limit {
                 match rd.read(&mut buf).await {
                     Ok(0) => return Ok((out, None)),
                     Ok(n) => out.extend_from_slice(&buf[..n]),
-                    Err(e) => return Ok((out, Some(e.kind()))),
+                    Err(e) => {
+                        errors += 1;
+                        if !transient || errors > 3 {
+                            return Ok((out, Some(e.kind())));
+                        }
+                    }
                 }
             }
             Err("neither end-of-stream nor an error".to_string())
@@ -511,15 +524,27 @@ fn run_fail_case(mi: usize, async_source: bool, k: usize, kind: ErrorKind, async
         }
     };
     st.transitions += mon.calls.load(SeqCst) as u64;
-    st.nontrivial.insert(fnv(format!("{}:{}:{}:{:?}:{}:{}", mi, async_source, k, kind, async_consumer, tail).as_bytes()));
+    st.nontrivial.insert(fnv(format!("{}:{}:{}:{:?}:{}:{}:{}", mi, async_source, k, kind, async_consumer, tail, transient).as_bytes()));
     let iface = if async_consumer { "async" } else { "blocking" };
     let srcname = if async_source { "async-source-failing" } else { "blocking-source-failing" };
-    let case = || json!({"msg": mi, "source": srcname, "fails_after": k, "kind": format!("{:?}", kind), "consumer": iface, "buffer": tail, "section": "failing-source"});
+    let case = || json!({"msg": mi, "source": srcname, "fails_after": k, "kind": format!("{:?}", kind), "consumer": iface, "buffer": tail, "transient": transient, "section": "failing-source"});
     match r {
         Ok((got, end)) => {
             if !expected.starts_with(&got) {
                 st.outcome("differs");
                 st.violate(format!("{}:{}:stream-corrupt", iface, srcname), format!("{}: delivered bytes are not a prefix of header+attributes ++ payload", case()), case());
+            } else if transient {
+                // the failure went away: a consumer that read on must have received the complete stream, then EOS
+                if end.is_none() && got == expected {
+                    st.outcome("complete-after-transient-failure");
+                } else {
+                    st.outcome("incomplete-after-transient-failure");
+                    st.violate(
+                        format!("{}:{}:bytes-lost-around-a-transient-failure", iface, srcname),
+                        format!("{}: the source failed ONCE ({:?}) after {} payload bytes and then went on; the consumer read on and got {} of {} bytes (ended with {:?})", case(), kind, k, got.len(), expected.len(), end),
+                        case(),
+                    );
+                }
             } else if end.is_none() {
                 st.outcome("clean-end");
                 st.violate(
@@ -544,7 +569,7 @@ pub fn run(ctx: &Ctx) -> ! {
     let mut rep = Report::new(
         ctx,
         "model_checking",
-        "messages {empty operation group, Print-Job request, Get-Printer-Attributes response, bare IppPayload} x payload source {none, blocking cursor, blocking 1-byte dribbler, blocking with Interrupted, async ready, async fragmented, async not-ready with immediate wake, async not-ready with deferred wake (fired by the manual executor / a helper thread under block_on)} x payload length {0,1,2,8191,8192,8193 (+65536, 3 MiB)} x consumer {into_read, into_async_read, into_async_read coming back with a DIFFERENT buffer after every not-ready answer} with EVERY sequence of <= 2 (3) buffer sizes over {0,1,2,3,8,H-1,H,H+1,4096,65536} (a zero-length buffer must return 0 without ending the stream) followed by a fixed size from {7,4096,65536} until end-of-stream; plus payload sources (blocking and async) that FAIL after 0, 1, 5, 8192, 8193 bytes with each of 10 error kinds, read through both interfaces: the stream may fail but never ends cleanly before the payload did, and what it delivered is a prefix of the expected stream. Oracle: bytes received == to_bytes() ++ payload, then Ok(0) three times (when the payload source is first touched is recorded, not judged). states = distinct (message, source, length, interface); transitions = reads answered by the payload source; non-trivial = non-empty payload",
+        "messages {empty operation group, Print-Job request, Get-Printer-Attributes response, bare IppPayload} x payload source {none, blocking cursor, blocking 1-byte dribbler, blocking with Interrupted, async ready, async fragmented, async not-ready with immediate wake, async not-ready with deferred wake (fired by the manual executor / a helper thread under block_on)} x payload length {0,1,2,8191,8192,8193 (+65536, 3 MiB)} x consumer {into_read, into_async_read, into_async_read coming back with a DIFFERENT buffer after every not-ready answer} with EVERY sequence of <= 2 (3) buffer sizes over {0,1,2,3,8,H-1,H,H+1,4096,65536} (a zero-length buffer must return 0 without ending the stream) followed by a fixed size from {7,4096,65536} until end-of-stream; plus payload sources (blocking and async) that FAIL after 0, 1, 5, 8192, 8193 bytes with each of 10 error kinds, read through both interfaces: the stream may fail but never ends cleanly before the payload did, and what it delivered is a prefix of the expected stream; the same with a TRANSIENT failure (returned once, then the source goes on) and a consumer that reads on: nothing may be lost or duplicated around the failure. Oracle: bytes received == to_bytes() ++ payload, then Ok(0) three times (when the payload source is first touched is recorded, not judged). states = distinct (message, source, length, interface); transitions = reads answered by the payload source; non-trivial = non-empty payload",
     );
     rep.assume("deferred wake-ups under the blocking interface are fired by a helper OS thread (block_on must be woken from outside); its timing does not influence the byte stream");
     let msgs = messages();
@@ -562,6 +587,7 @@ pub fn run(ctx: &Ctx) -> ! {
                 kind,
                 j["consumer"].as_str() == Some("async"),
                 j["buffer"].as_u64().unwrap_or(7) as usize,
+                j["transient"].as_bool().unwrap_or(false),
                 &msgs,
                 seed,
                 &mut st,
@@ -657,11 +683,11 @@ pub fn run(ctx: &Ctx) -> ! {
     // whole payload was delivered, and what it delivered must be a prefix of header+attributes ++ payload
     let kinds: Vec<ErrorKind> = FAULT_KINDS.iter().copied().chain([ErrorKind::InvalidData, ErrorKind::WriteZero, ErrorKind::NotConnected]).collect();
     let fail_at: [usize; 5] = [0, 1, 5, 8192, 8193];
-    let radices = [msgs.len() as u64, 2, fail_at.len() as u64, kinds.len() as u64, 2, 2];
+    let radices = [msgs.len() as u64, 2, fail_at.len() as u64, kinds.len() as u64, 2, 3, 2];
     let mut fs = Stats::new();
     for p in par_range(ctx.threads, vmc::explore::product(&radices), 16, Stats::new, |st, idx| {
         let t = vmc::explore::unrank(idx, &radices);
-        run_fail_case(t[0] as usize, t[1] == 1, fail_at[t[2] as usize], kinds[t[3] as usize], t[4] == 1, [7usize, 4096][t[5] as usize], &msgs, seed, st);
+        run_fail_case(t[0] as usize, t[1] == 1, fail_at[t[2] as usize], kinds[t[3] as usize], t[4] == 1, [7usize, 4096, 65536][t[5] as usize], t[6] == 1, &msgs, seed, st);
     }) {
         fs.merge(p);
     }
